@@ -14,11 +14,12 @@ pub fn def() -> StreamDef {
 struct S {
     dir: tempfile::TempDir,
     open: BTreeMap<String, Db>,
+    trial: u32,
 }
 
 impl S {
     fn new() -> Self {
-        S { dir: tempfile::tempdir().unwrap(), open: BTreeMap::new() }
+        S { dir: tempfile::tempdir().unwrap(), open: BTreeMap::new(), trial: 0 }
     }
     fn path(&self) -> std::path::PathBuf {
         self.dir.path().join("db")
@@ -81,6 +82,67 @@ impl State for S {
                     Err(_) => "spawn-error".into(),
                 }
             }
+            ["race_open", n] => {
+                // n threads released by a barrier open ONE database that does not exist yet;
+                // every successful handle is kept alive until all have answered
+                let Ok(n) = n.parse::<usize>() else { return "bad-op".into() };
+                self.trial += 1;
+                let d = self.dir.path().join(format!("race{}", self.trial));
+                let _ = std::fs::create_dir_all(&d);
+                let path = d.join("db");
+                let barrier = std::sync::Arc::new(std::sync::Barrier::new(n));
+                let hs: Vec<_> = (0..n)
+                    .map(|_| {
+                        let (barrier, path) = (barrier.clone(), path.clone());
+                        std::thread::spawn(move || {
+                            barrier.wait();
+                            open_outcome(&path)
+                        })
+                    })
+                    .collect();
+                let results: Vec<(String, Option<Db>)> =
+                    hs.into_iter().map(|h| h.join().unwrap_or(("panic".into(), None))).collect();
+                let ok = results.iter().filter(|r| r.0 == "ok").count();
+                let other = results.iter().filter(|r| r.0 != "ok" && r.0 != "busy").count();
+                drop(results);
+                if other > 0 { format!("{} | other:{}", ok, other) } else { ok.to_string() }
+            }
+            ["xrace", n] => {
+                // n child PROCESSES start their open at the same wall-clock instant and hold the handle
+                let Ok(n) = n.parse::<usize>() else { return "bad-op".into() };
+                self.trial += 1;
+                let d = self.dir.path().join(format!("xrace{}", self.trial));
+                let _ = std::fs::create_dir_all(&d);
+                let path = d.join("db");
+                let t0 = std::time::SystemTime::now().duration_since(std::time::UNIX_EPOCH).unwrap().as_millis() + 250;
+                let exe = std::env::current_exe().unwrap();
+                let kids: Vec<_> = (0..n)
+                    .filter_map(|_| {
+                        Command::new(&exe)
+                            .args(["child", "handles", "openhold"])
+                            .arg(&path)
+                            .arg(t0.to_string())
+                            .stdin(Stdio::null())
+                            .stdout(Stdio::piped())
+                            .stderr(Stdio::null())
+                            .spawn()
+                            .ok()
+                    })
+                    .collect();
+                let mut ok = 0;
+                let mut other = 0;
+                for k in kids {
+                    match k.wait_with_output() {
+                        Ok(o) => match String::from_utf8_lossy(&o.stdout).trim() {
+                            "ok" => ok += 1,
+                            "busy" => {}
+                            _ => other += 1,
+                        },
+                        Err(_) => other += 1,
+                    }
+                }
+                if other > 0 { format!("{} | other:{}", ok, other) } else { ok.to_string() }
+            }
             ["write", h, k] => {
                 let Some(db) = self.open.get(*h) else { return "nohandle".into() };
                 let Ok(k) = k.parse::<u64>() else { return "bad-op".into() };
@@ -109,6 +171,18 @@ fn child(args: &[String]) -> i32 {
             drop(db);
             0
         }
+        [cmd, path, t0] if cmd == "openhold" => {
+            // spin until the common start instant, open, keep the handle for a while
+            let t0: u128 = t0.parse().unwrap_or(0);
+            while std::time::SystemTime::now().duration_since(std::time::UNIX_EPOCH).unwrap().as_millis() < t0 {
+                std::hint::spin_loop();
+            }
+            let (s, db) = open_outcome(std::path::Path::new(path));
+            std::thread::sleep(std::time::Duration::from_millis(400));
+            println!("{}", s);
+            drop(db);
+            0
+        }
         _ => 2,
     }
 }
@@ -121,6 +195,15 @@ fn generate(rng: &mut Rng, n: usize, _tier: &str, out: &mut dyn Write) {
     writeln!(out, "#case two-processes").unwrap();
     for l in ["xopen", "open A", "xopen", "write A 5", "drop A", "xopen", "open C", "count C", "xopen", "close C", "xopen"] {
         writeln!(out, "{}", l).unwrap();
+    }
+    // racing creators: a database that does not exist yet, opened by several threads / processes at once
+    writeln!(out, "#case racing-creators").unwrap();
+    let (threads_trials, proc_trials) = if _tier == "thorough" { (600, 60) } else { (40, 5) };
+    for k in 0..threads_trials {
+        writeln!(out, "race_open {}", 2 + (k % 4)).unwrap();
+    }
+    for k in 0..proc_trials {
+        writeln!(out, "xrace {}", 2 + (k % 3)).unwrap();
     }
     // random: the generator follows the SPEC (a second open is refused), so writes go through the one open handle
     let mut left = n;
